@@ -8,7 +8,8 @@
 (* the sequential registry of Registry.tla (the Body step): every lookup   *)
 (* and listing must be the answer of that registry at its position.        *)
 (* "probe" lines report whether a second operation stayed blocked while a  *)
-(* first one was held inside its critical section (mutual exclusion).      *)
+(* first one was held inside its critical section; that is required        *)
+(* whenever one of the two is a registration (readers may overlap).        *)
 (***************************************************************************)
 EXTENDS Integers, Sequences, FiniteSets, TLC, Json, CSV
 
@@ -29,7 +30,7 @@ Bad(ev) ==
     [] ev.ev = "list"   -> \/ Range(ev.res) # DOMAIN reg
                            \/ Len(ev.res) # Cardinality(DOMAIN reg)
                            \/ ev.sorted # 1
-    [] ev.ev = "probe"  -> ev.blocked # 1
+    [] ev.ev = "probe"  -> ev.must = 1 /\ ev.blocked # 1    \* a registration excludes everything; reads may overlap
     [] ev.ev = "nohook" -> TRUE
     [] OTHER -> FALSE
 
